@@ -1324,9 +1324,13 @@ def corpus_symlink_compress(cx, c):
            "bystander_before": sec[0][2] if sec else None, "bystander_after": sec[3][2] if len(sec) > 3 else None}
     if oc != "ok" or len(sec) != 6:
         fail(cx, NOWORLD, -1, {"oracle": "compaction through a relative symbolic link runs", "outcome": oc, "stack": st})
-    elif sec[2][1] == "ok" and (sec[3][2] != sec[0][2] or sec[3][1] != "ok"):
-        finding_once(ck, c["key"], dict(res, what=c["what"]))
-    elif sec[2][1] == "ok" and (sec[4][2] != sec[1][2] or sec[5][2] != sec[1][2] or not still_link):
+    else:
+        # side observation OUTSIDE the property (an unrelated file of the working directory): evidence only, never a finding
+        res["observation"] = ("bystander ./real.adf was replaced by the compacted copy (rewrite_file resolves the relative link target against the "
+                              "current directory)" if sec[2][1] == "ok" and sec[3][2] != sec[0][2] else "bystander untouched")
+        ck.extra["observation_relative_symlink"] = res["observation"]
+    if oc == "ok" and len(sec) == 6 and sec[2][1] == "ok" and (sec[4][2] != sec[1][2] or sec[5][2] != sec[1][2] or not still_link):
+        # what C09 does state: the file at the original path, and the link through which it was named, still hold the source's tree
         fail(cx, NOWORLD, -1, dict(res, oracle="the compacted file and the link through which it was named still hold the source's tree"))
     for f in ("real.adf",):
         try:
@@ -1353,7 +1357,7 @@ def run_corpus(cx):
         before = (len(cx.ck.violations), len(cx.ck.known_hits), len(cx.failures))
         r = CORPUS_KINDS[c["kind"]](cx, c)
         after = (len(cx.ck.violations), len(cx.ck.known_hits), len(cx.failures))
-        res[c["name"]] = {"status": c["status"], "result": "as recorded" if before == after or (c["status"] in ("known finding", "open finding") and after[2] == before[2])
+        res[c["name"]] = {"status": c["status"], "result": "as recorded" if before == after or (c["status"] in ("known finding", "open finding", "observation outside the property") and after[2] == before[2])
                           else "CHANGED", "detail": r}
     return res
 
